@@ -431,6 +431,10 @@ func (p *Parser) parseUseStmt() ast.Statement {
 		Value: p.parseAliasPathShortcut("layouts"),
 	}
 
+	if !p.expectPeek(token.RPAREN) { // move to ")"
+		return nil
+	}
+
 	p.useStmt = stmt
 
 	return stmt
@@ -449,6 +453,10 @@ func (p *Parser) parseBreakIfStmt() ast.Statement {
 
 	stmt.Condition = p.parseExpression(LOWEST)
 
+	if !p.expectPeek(token.RPAREN) { // move to ")"
+		return nil
+	}
+
 	return stmt
 }
 
@@ -464,6 +472,10 @@ func (p *Parser) parseContinueIfStmt() ast.Statement {
 	p.nextToken() // skip "("
 
 	stmt.Condition = p.parseExpression(LOWEST)
+
+	if !p.expectPeek(token.RPAREN) { // move to ")"
+		return nil
+	}
 
 	return stmt
 }
@@ -636,6 +648,10 @@ func (p *Parser) parseReserveStmt() ast.Statement {
 		Value: p.curToken.Literal,
 	}
 
+	if !p.expectPeek(token.RPAREN) { // move to ")"
+		return nil
+	}
+
 	p.reserves[stmt.Name.Value] = stmt
 
 	return stmt
@@ -668,6 +684,10 @@ func (p *Parser) parseInsertStmt() ast.Statement {
 		p.nextToken() // skip insert name
 		p.nextToken() // skip ","
 		stmt.Argument = p.parseExpression(LOWEST)
+
+		if !p.expectPeek(token.RPAREN) { // move to ")"
+			return nil
+		}
 
 		p.inserts[stmt.Name.Value] = stmt
 		hasBody = false
